@@ -45,8 +45,10 @@ fn p_stream_poll_next() {
     } else {
         assert!(r1 == Poll::Ready(Some(next)), "C19 Ready(Some(item)) crosses unchanged");
     }
+    assert!(unsafe { WAKES } == pend as u32, "C19 the original is woken once per wake the implementation performs, and never by the glue itself");
     let r2 = p.as_mut().poll_next(&mut cx);
     if pend { assert!(r2 == if left == 0 { Poll::Ready(None) } else { Poll::Ready(Some(next)) }, "C19 second poll continues the stream"); }
+    assert!(unsafe { WAKES } == pend as u32, "C19 once per wake: polls that do not wake leave the original unwoken (items, end of stream)");
     assert!(Arc::strong_count(&keep) == 2, "C19 no clone of the original is kept after the polls");
     kani::cover!(pend, "pending first");
     kani::cover!(!pend && left == 1, "item");
@@ -96,8 +98,8 @@ fn p_sink_methods() {
         };
         match outcome {
             Out::Pending if which != 2 => { assert!(r.is_pending(), "C19 Pending crosses unchanged"); assert!(unsafe { WAKES } == 1, "C19 a wake inside the poll wakes the caller's original once"); }
-            Out::Err(x) => assert!(r == Poll::Ready(Err(x)), "C19 Err(e) crosses unchanged"),
-            _ => assert!(r == Poll::Ready(Ok(())), "C19 Ok crosses unchanged"),
+            Out::Err(x) => { assert!(r == Poll::Ready(Err(x)), "C19 Err(e) crosses unchanged"); assert!(unsafe { WAKES } == 0, "C19 calls that do not wake leave the original unwoken"); }
+            _ => { assert!(r == Poll::Ready(Ok(())), "C19 Ok crosses unchanged"); assert!(unsafe { WAKES } == 0, "C19 calls that do not wake leave the original unwoken"); }
         }
     }
     drop(obj);
